@@ -336,6 +336,25 @@ func memDirected(rng *RNG) []Case {
 				fmt.Sprintf("mem gettag %s %s", tok("a"), tok("t")),
 			}})
 		}
+		// a tag left dangling by DeleteManifest (mutable tags): reading through it fails, but reading changes nothing -
+		// the tag is still listed and still resolves the same way afterwards (seed C14-14: a read that tidies up)
+		{
+			a := tok("a")
+			m := byName["opaque"]
+			md := tok(sha256Digest(m.data))
+			cases = append(cases, Case{Tag: "directed:dangling-tag-reads", Lines: []string{fmt.Sprintf("mem init %d", imm),
+				linePushManifest("a", "stale", m.data, m.mt),
+				linePushManifest("a", "live", byName["opaque-upper"].data, byName["opaque-upper"].mt),
+				fmt.Sprintf("mem deletemanifest %s %s", a, md),
+				fmt.Sprintf("mem tags %s %s", a, tok("")),
+				fmt.Sprintf("mem resolvetag %s %s", a, tok("stale")),
+				fmt.Sprintf("mem gettag %s %s", a, tok("stale")),
+				fmt.Sprintf("mem tags %s %s", a, tok("")),
+				fmt.Sprintf("mem resolvetag %s %s", a, tok("stale")),
+				fmt.Sprintf("mem gettag %s %s", a, tok("stale")),
+				fmt.Sprintf("mem tags %s %s", a, tok("")),
+			}})
+		}
 		// one upload ID used in two repositories names two uploads (seed C02-12: a registry-wide session table)
 		{
 			a, b := tok("a"), tok("b/c")
@@ -612,6 +631,12 @@ func memOracle(c Case, impl []string, wire bool) []Failure {
 		arg := func(k int) string { s, _ := untok(t[k]); return s }
 		fail := func(class, oracle, exp string) {
 			fs = append(fs, Failure{Class: class, Oracle: oracle, Index: i, Expected: exp, Observed: got})
+		}
+		if c.Tag == "directed:dangling-tag-reads" && (i == 7 || i == 10) && got != impl[4] {
+			fail("mem-read-changed-the-registry", "reads_change_nothing", impl[4])
+		}
+		if c.Tag == "directed:dangling-tag-reads" && i == 8 && got != impl[5] {
+			fail("mem-read-changed-the-registry", "reads_change_nothing", impl[5])
 		}
 		if c.Tag == "directed:same-id-two-repos" && got != "panic" && strings.HasPrefix(got, "err") != (i == 8) {
 			fail("mem-upload-id-shared-between-repositories", "uploads_belong_to_their_repository",
